@@ -55,6 +55,20 @@ def _classify_error(e):
     return "other:" + type(e).__name__
 
 
+def _depth(v):
+    d, stack = 0, [(v, 1)]
+    while stack:
+        x, k = stack.pop()
+        if k > 64:
+            return k
+        d = max(d, k)
+        if isinstance(x, dict):
+            stack.extend((y, k + 1) for y in x.values())
+        elif isinstance(x, (list, tuple)):
+            stack.extend((y, k + 1) for y in x)
+    return d
+
+
 def _observe(fn):
     try:
         res = fn()
@@ -62,6 +76,9 @@ def _observe(fn):
         return {"exc": "Boom"}
     except Exception as e:  # noqa
         return {"exc": type(e).__name__, "msg": str(e)[:160]}
+    if _depth(res.data) > 64:
+        # deeper than any generated operation can select (and than the model's 64 levels): not serialised
+        return {"exc": "ResponseTooDeep", "msg": "response nesting exceeds 64 levels"}
     if res.data is None and res.errors and all(isinstance(e, ExecutionError) for e in res.errors):
         return {"rejected": type(res.errors[0]).__name__}
     errors = []
